@@ -3,6 +3,7 @@ import HmsProofs.Lemmas.SimPureFinal
 import HmsProofs.Lemmas.SimStmtFinal
 import HmsProofs.Lemmas.SimSlots
 import HmsProofs.Lemmas.SimGGlue
+import HmsProofs.Lemmas.SimGComp3
 /-!
 # C01 (part 2) — the compiler and the VM simulate the specification semantics
 
@@ -36,7 +37,10 @@ the Go code and a concrete instance.
     call statements: the VM follows `loopRun`;
 11. `println_spec`, `println_vm`, `println_correct` — `println` of the fragment's values: the
     output buffers agree.
-   (Proofs of 9–11: `Lemmas/SimG*.lean`, combined in `SimGAll.allP`.)
+12. `compileExpr_gfrag`, `compileStmts_gfrag`, `compileFn_gfrag` — what the compiler emits on
+    that fragment (`cgE`/`cgSs`/`cgFn`: reversed arguments and `Call_Imm`, loops and their
+    jumps, `return`, `println`, parameters), instantiated on the example program.
+   (Proofs of 9–12: `Lemmas/SimG*.lean`; the simulation is combined in `SimGAll.allP`.)
 -/
 namespace HmsProofs.C01VM
 open Hms.Core Hms.Core.Comp Hms.Core.VM HmsProofs.Sim
@@ -1353,5 +1357,93 @@ example : ∃ (i : I64) (mem' : List (Int × Val)), i.toInt = 7 ∧
   subst hfuel
   exact h spec_rep.1 spec_rep.2
 end Example11
+
+/-! ## 12. What the compiler emits on the general fragment -/
+
+/-- **`compileExpr` on expressions with calls.** For `e` in `Frag.okGE`, enough compiler fuel
+(`Frag.cdE`), well scoped (variables resolved, callees are functions the compiler knows — `φOf cs`
+is what `getMangledFn` answers — and not variables): `compileExpr` appends exactly
+`cgE module ρ φ e` — for a call `f(a₁, …, aₙ)`: `code(aₙ) ++ … ++ code(a₁) ++ [Call_Imm f']`, the
+arguments in reverse order — and advances the label counters as `cgE` says. -/
+theorem compileExpr_gfrag (fuel : Nat) (e : Expr) (cs : CState)
+    (hs : Frag.okGE e = true) (hd : Frag.cdE e ≤ fuel) (hws : Frag.wsGE cs.scopes (φOf cs) e = true) :
+    (compileExpr fuel e).run cs =
+      ((), updS cs cs.loops (cgE cs.currModule (ρS cs.scopes) (φOf cs) e cs.labelMangle).1
+        { envOf cs with lm := (cgE cs.currModule (ρS cs.scopes) (φOf cs) e cs.labelMangle).2 }) := by
+  have := (compile_gexpr fuel).1 e cs hs hd cs.loops [] (envOf cs) hws
+  rwa [updS_self, List.nil_append] at this
+
+/-- **`compileStmts` on the general statement fragment** (`Frag.okGSs`; `break`/`continue`
+only if the loop stack `cs.loops` is not empty; no enclosing `try`): the emitted code is
+`cgSs …` — `loop`: `head: body; Jump head; end:`; `break`/`continue`: `Jump` to the innermost
+loop's labels; `return e;`: `code(e); Jump cleanup`; `println(…)`: reversed arguments,
+`GetGlobImm(println)`, the count, `Call_Val`; a call statement: the call and `Drop` — and scopes,
+counters and slot count end as `cgSs` computes them. -/
+theorem compileStmts_gfrag (fuel : Nat) (ss : List Stmt) (cs : CState) (htd : cs.tryDepth = 0)
+    (hs : Frag.okGSs (!cs.loops.isEmpty) ss = true) (hd : Frag.cdSs ss ≤ fuel)
+    (hws : Frag.wsGSs cs.currModule cs.currFn (φOf cs) (loopsOf cs.loops) ss (envOf cs) = true) :
+    (compileStmts fuel ss).run cs =
+      ((), updS cs cs.loops (cgSs cs.currModule cs.currFn (φOf cs) (loopsOf cs.loops) ss (envOf cs)).1
+        (cgSs cs.currModule cs.currFn (φOf cs) (loopsOf cs.loops) ss (envOf cs)).2) := by
+  have := (compile_gstmt fuel).2.1 ss cs cs.loops htd hs hd [] (envOf cs) hws
+  rwa [updS_self, List.nil_append] at this
+
+/-- **`compileFn` on a function of the general fragment**: ordinary parameters, statements
+`stmts`, optionally a trailing expression, compiled at top level. Afterwards the function's entry
+holds `cgFn …` = `AddMempointer(n); SetVar p₁ … SetVar pₖ; statements; expression; cleanup:
+AddMempointer(-n); Return`, with `n` the slot count (`partsOf …`.envE.nv`); the other functions,
+the loop stack, the `try` depth and the `unsupported` flag are as before. (`fnBase cs fd`: `cs` with
+the function registered — its own name is callable, for recursion.) -/
+theorem compileFn_gfrag (f2 : Nat) (fd : FnDef) (cs : CState) (bsp : Span) (bty : Ty) (stmts : List Stmt)
+    (oe : Option Expr)
+    (hbody : fd.body = .mk bsp bty stmts oe) (hparams : ∀ p ∈ fd.params, p.isSingleton = false)
+    (hann : fd.hasAnnotation = false) (hloops : cs.loops = [])
+    (hs : Frag.okGSs false stmts = true) (he : ∀ e, oe = some e → Frag.okGE e = true)
+    (hd : Frag.cdSs stmts ≤ f2) (hde : ∀ e, oe = some e → Frag.cdE e ≤ f2)
+    (hws : Frag.wsGSs cs.currModule fd.name (φOf (fnBase cs fd)) [] stmts (partsOf cs fd stmts oe).envB = true)
+    (hwe : ∀ e, oe = some e → Frag.wsGE (partsOf cs fd stmts oe).envS.scopes (φOf (fnBase cs fd)) e = true) :
+    ∃ cs', (compileFn (f2 + 2) fd).run cs = ((), cs') ∧
+      cs'.fns.lookup (cs.currModule, fd.name) =
+        some { name := mangleFnName cs.currModule fd.name,
+               code := cgFn cs.currModule (φOf (fnBase cs fd)) fd stmts oe cs.scopes cs.varMangle cs.labelMangle,
+               cntVars := (partsOf cs fd stmts oe).envE.nv } ∧
+      (∀ k, k ≠ (cs.currModule, fd.name) → cs'.fns.lookup k = cs.fns.lookup k) ∧
+      cs'.loops = cs.loops ∧ cs'.tryDepth = cs.tryDepth ∧ cs'.currModule = cs.currModule ∧
+      cs'.unsupported = cs.unsupported :=
+  Sim.compileFn_gfrag f2 fd cs bsp bty stmts oe hbody hparams hann hloops hs he hd hde hws hwe
+
+section Example12
+/-- The compiler state in which pass 2 of `compileProgram` reaches the functions of `progX`. -/
+private def csX : CState :=
+  { fns := [(("main", "@init"), { name := "@main.@init", code := [] }),
+            (("main", "fib"), { name := "@main.fib", code := [] }),
+            (("main", "sumOdd"), { name := "@main.sumOdd", code := [] }),
+            (("main", "report"), { name := "@main.report", code := [] }),
+            (("main", "main"), { name := "@main.main", code := [] })],
+    currFn := "@init", currModule := "main" }
+
+/-- The symbolic code used in sections 9–11 is what `compileFn` emits (statement instantiated):
+for `sumOdd` — two `let`s, a `loop` and a `while` with `break`/`continue` — … -/
+example : (((compileFn 40 sumFd).run csX).2.fns.lookup ("main", "sumOdd")).map (·.code) = some symSum := by
+  obtain ⟨cs', hrun, hlk, _⟩ := compileFn_gfrag 38 sumFd csX sp0 .int sumStmts (some (gv "acc")) rfl (by decide) rfl rfl
+    (by decide +kernel) (by intro e he; cases he; decide) (by decide +kernel) (by intro e he; cases he; decide +kernel)
+    (by decide +kernel) (by intro e he; cases he; decide +kernel)
+  rw [hrun]
+  exact congrArg (Option.map (·.code)) hlk
+/-- … for the recursive `fib` with its `return` … -/
+example : (((compileFn 40 fibFd).run csX).2.fns.lookup ("main", "fib")).map (·.code) = some symFib := by
+  obtain ⟨cs', hrun, hlk, _⟩ := compileFn_gfrag 38 fibFd csX sp0 .int fibStmts (some fibE) rfl (by decide) rfl rfl
+    (by decide +kernel) (by intro e he; cases he; decide +kernel) (by decide +kernel)
+    (by intro e he; cases he; decide +kernel) (by decide +kernel) (by intro e he; cases he; decide +kernel)
+  rw [hrun]
+  exact congrArg (Option.map (·.code)) hlk
+/-- … and for `report` with its `println`. -/
+example : (((compileFn 40 repFd).run csX).2.fns.lookup ("main", "report")).map (·.code) = some symRep := by
+  obtain ⟨cs', hrun, hlk, _⟩ := compileFn_gfrag 38 repFd csX sp0 .int repStmts (some (gv "x")) rfl (by decide) rfl rfl
+    (by decide +kernel) (by intro e he; cases he; decide) (by decide +kernel) (by intro e he; cases he; decide +kernel)
+    (by decide +kernel) (by intro e he; cases he; decide +kernel)
+  rw [hrun]
+  exact congrArg (Option.map (·.code)) hlk
+end Example12
 
 end HmsProofs.C01VM
